@@ -64,7 +64,7 @@ func mirrorIPFIXDispatcher(ch chan IPFIXUDPMsg) {
 
 func mirrorIPFIX(dst net.IP, port int, ch chan IPFIXUDPMsg) error {
 	var (
-		packet = make([]byte, opts.IPFIXUDPSize)
+		packet []byte
 		msg    IPFIXUDPMsg
 		pLen   int
 		err    error
@@ -95,6 +95,9 @@ func mirrorIPFIX(dst net.IP, port int, ch chan IPFIXUDPMsg) error {
 		ipHdr = ip.Marshal()
 		ipHLen = mirror.IPv6HLen
 	}
+
+	// room for the IP and UDP headers in front of the largest payload
+	packet = make([]byte, ipHLen+mirror.UDPHLen+opts.IPFIXUDPSize)
 
 	for {
 		msg = <-ch
